@@ -37,3 +37,32 @@ def _c15(prop, tier):
 
 
 TABLE["C15"] = dict(run=_c15, replay=lambda p, path: smallfam.replay(p, path, driver="client", trace_module="GuestClient_Trace"))
+
+
+# ------------------------------------------------------------------------------------------
+RTMR_INV = "TypeOK" and "RefusedWritesNothing OneEntryPerIndex ExactlyOneExtend RegistersAreChains NothingElseBound ExportCase"
+
+
+def _rtmr_cfg(tier):
+    if tier == "thorough":
+        consts = ("  Indices <- IndicesThorough\n  DigestLens = {47, 48, 49}\n  Hashes = {\"sha384\", \"sha256\"}\n  MaxCalls = 3\n"
+                  "  InitStates = {\"empty\", \"unrelated\", \"unbound\", \"bound0\", \"two\"}\n")
+    else:
+        consts = ("  Indices <- IndicesQuick\n  DigestLens = {0, 47, 48, 49, 64}\n  Hashes = {\"sha384\", \"sha256\", \"sha512\"}\n  MaxCalls = 2\n"
+                  "  InitStates = {\"empty\", \"unrelated\", \"unbound\", \"bound0\", \"two\"}\n")
+    return "CONSTANTS\n" + consts + "SPECIFICATION Spec\nINVARIANTS " + RTMR_INV + "\nCHECK_DEADLOCK FALSE\n"
+
+
+RTMR_TRACE_CONSTS = ("  Indices = {0}\n  DigestLens = {48}\n  Hashes = {\"sha384\"}\n  MaxCalls = 1000\n  InitStates = {\"empty\"}\n")
+
+
+def _c17(prop, tier):
+    code, _, _ = smallfam.run(prop, tier, mc_module="Rtmr_MC", mc_cfg=_rtmr_cfg(tier), driver="rtmr", trace_module="Rtmr_Trace",
+                              trace_consts=RTMR_TRACE_CONSTS, key_fn=_key_generic, mc_workers=1,
+                              required_actions=("Validate", "ReadDir", "ReadIndex", "NoneBound", "MkdirTemp", "WriteIndex", "WriteDigest"),
+                              assumptions=["the in-memory configfsi.Client stands for configfs-tsm: an entry is bound by writing its index attribute and extended by writing digest",
+                                           "go-configfs-tsm v0.3.2 (pinned dependency) performs the TSM sub-steps"])
+    return code
+
+
+TABLE["C17"] = dict(run=_c17, replay=lambda p, path: smallfam.replay(p, path, driver="rtmr", trace_module="Rtmr_Trace", trace_consts=RTMR_TRACE_CONSTS))
